@@ -155,6 +155,34 @@ def async_spoil_scenarios():
                 yield plan
 
 
+def async_tx_scenarios():
+    """a blocking pop queued in MULTI never waits on the asyncio front-end either: EXEC answers at once (nil for an empty list), the connection is not
+    paused, nothing stays registered: a later push stays in its list and requests sent afterwards are answered normally"""
+    for blk in ([b'blpop', b'l0', b'0'], [b'brpop', b'l0', b'l1', b'1'], [b'brpoplpush', b'l0', b'dst', b'0'], [b'blpop', b'l1', b'l0', b'5']):
+        for pre in ([], [[b'rpush', b'l0', b'x']], [[b'set', b'l0', b'str']], [[b'rpush', b'l1', b'y', b'z']]):
+            for extra in ([], [[b'incr', b'n']], [list(blk)]):
+                def plan(s, rng, blk=blk, pre=pre, extra=extra):
+                    yield ('open', 1)
+                    yield ('open', 2)
+                    for f in pre:
+                        yield ('cmd', 2, list(f))
+                    yield ('cmd', 1, [b'multi'])
+                    yield ('cmd', 1, list(blk))
+                    for f in extra:
+                        yield ('cmd', 1, list(f))
+                    yield ('cmd', 1, [b'exec'])
+                    yield ('cmd', 1, [b'ping'])
+                    yield ('cmd', 2, [b'rpush', b'l0', b'later'])
+                    yield ('aadv', 0.01)
+                    yield ('cmd', 2, [b'lrange', b'l0', b'0', b'-1'])
+                    yield ('cmd', 2, [b'lrange', b'dst', b'0', b'-1'])
+                    if not s.impl.socks[1]._paused:
+                        yield ('cmd', 1, [b'get', b'n'])
+                    else:
+                        yield ('aadv', 6.0)
+                yield plan
+
+
 def plan_async_tx(length):
     """MULTI/EXEC on the asyncio front-end, with blocking pops (which must not block) and errors inside the queue"""
     def plan(s, rng):
